@@ -747,12 +747,15 @@ func c13errClass(err error) int64 {
 	return 2
 }
 
+var c13lastErr string
+
 func (e *c13env) read(b core.BlobID, off int64, length int) (int, int64, []byte) {
 	buf := make([]byte, length)
 	for i := range buf {
 		buf[i] = 0xEE // the client must overwrite or zero every byte it counts
 	}
 	n, err := blb.VerifReadAt(e.cli, b, buf, off)
+	c13lastErr = fmt.Sprint(err)
 	if n < 0 || n > length {
 		n = 0
 	}
@@ -1245,7 +1248,7 @@ func c13stripe(tr *vw.Trace, e *c13env, r *vw.Rng, id string, big bool) {
 			vw.Report(vw.Violation{Property: c13prop, Signature: fmt.Sprintf("rs-read/%s/%s/%s", tag, kind, where),
 				What: "a read through the erasure-coded location returns a different count / end-of-file than the replicated read", Case: id,
 				Detail: map[string]interface{}{"blob_off": p.off, "len": p.length, "tract_len": t.length, "in_tract_off": p.inoff,
-					"replicated": []int64{int64(p.n), p.cls}, "rs": []int64{int64(n2), cls2}, "class": p.classTag}})
+					"replicated": []int64{int64(p.n), p.cls}, "rs": []int64{int64(n2), cls2}, "class": p.classTag, "err": c13lastErr}})
 		} else if !bytes.Equal(data2, p.data) {
 			vw.Report(vw.Violation{Property: c13prop, Signature: fmt.Sprintf("rs-read/%s/bytes/%s", tag, where),
 				What: "a read through the erasure-coded location returns different bytes than the replicated read", Case: id,
